@@ -30,16 +30,21 @@ Fixpoint map2 (f : CQ -> CQ -> CQ) (a b : GR) : GR :=
 Definition gadd (a b : GR) : GR := if gwf a && gwf b then map2 cqadd a b else [].
 Definition gsub (a b : GR) : GR := if gwf a && gwf b then map2 cqsub a b else [].
 Definition gopp (a : GR) : GR := map cqopp a.
-(* rotate right by one: x^1 * a *)
-Definition rot1 (a : GR) : GR := match rev a with [] => [] | l :: r => l :: rev r end.
-(* a * b = sum_i a_i x^i b, accumulating the rotations of b *)
-Fixpoint gmul_aux (a : GR) (b acc : GR) : GR :=
+(* x^i * b : coefficient k of the result is b_(k-i mod L) *)
+Definition rot (i : nat) (b : GR) : GR := skipn (L - i) b ++ firstn (L - i) b.
+(* a * b = sum_i a_i x^i b over the non-zero coefficients of a *)
+Fixpoint gmul_aux (a : GR) (i : nat) (b acc : GR) : GR :=
   match a with
   | [] => acc
-  | c :: r => let acc' := if cq_is0 c then acc else map2 cqadd acc (map (cqmul c) b) in
-              gmul_aux r (rot1 b) acc'
+  | c :: r => let acc' := if cq_is0 c then acc else map2 cqadd acc (map (cqmul c) (rot i b)) in
+              gmul_aux r (Datatypes.S i) b acc'
   end.
-Definition gmul (a b : GR) : GR := if gwf a && gwf b then gmul_aux a b gr0 else [].
+Definition nnz (a : GR) : nat := length (filter (fun c => negb (cq_is0 c)) a).
+(* iterate over the sparser operand (the ring is commutative) *)
+Definition gmul (a b : GR) : GR :=
+  if gwf a && gwf b then
+    if Nat.leb (nnz a) (nnz b) then gmul_aux a 0 b gr0 else gmul_aux b 0 a gr0
+  else [].
 (* conj: coefficient-wise conjugation, x^k -> x^(-k) *)
 Definition gconj (a : GR) : GR :=
   match a with [] => [] | c :: r => cqconj c :: rev (map cqconj r) end.
